@@ -101,3 +101,23 @@ package k_nearest_nodes
 //@   requires a-set: me != nil && me.inner != nil && f != nil
 //@   modifies *
 //@   callsite dynamic:f members-with-their-own-data: kmem(*me, $0.Key) && $0.Data == kdata(*me, $0.Key)
+
+// The comparison closure of New (C02 / C18: two contacts compare equal only if they are the same contact). Distance to
+// the target decides first (the verified int160 Distance and Cmp); ties are broken by a seeded hash of the WHOLE
+// address string of each side (IP and port) -- hashing less would make distinct contacts with the same ID collide.
+//@ func (*hash/maphash.Hash).SetSeed
+//@   trusted
+//@ func (*hash/maphash.Hash).WriteString
+//@   trusted
+//@ func (*hash/maphash.Hash).Sum64
+//@   trusted
+//@ func dht/k-nearest-nodes.New$1$1
+//@   modifies *
+//@   callsite (*hash/maphash.Hash).WriteString the-left-contact-first: count("call:(*hash/maphash.Hash).WriteString") == 0 ==> $h == &lh && $s == l.Addr.AddrPort.String()
+//@   callsite (*hash/maphash.Hash).WriteString then-the-right-contact: count("call:(*hash/maphash.Hash).WriteString") == 1 ==> $h == &rh && $s == r.Addr.AddrPort.String()
+//@   callsite (*hash/maphash.Hash).SetSeed the-same-seed-for-both: $seed == seed
+//@   ensures hashes-both-whole-addresses: count("call:(*hash/maphash.Hash).WriteString") == 2 && count("call:(*hash/maphash.Hash).Sum64") == 2
+//@ func dht/k-nearest-nodes.New$1
+//@   modifies *
+//@   callsite (dht/int160.T).Cmp distance-to-the-target-decides-first: $l.bits == l.ID ^ target.bits && $r.bits == r.ID ^ target.bits
+//@   ensures one-distance-comparison: count("call:(dht/int160.T).Cmp") == 1
